@@ -16,7 +16,9 @@ from types import SimpleNamespace
 from .core import Violation, HarnessError, digest
 
 ROBOT = 'robot'
-USERS = ['alice', 'carol', 'dave', 'lead', 'root']   # author is alice
+# author is alice; 'roo' and 'aro' are fragments of admin logins (root,
+# carol) and have no right of their own
+USERS = ['alice', 'carol', 'dave', 'lead', 'root', 'roo', 'aro']
 SEPS = [' ', ', ', ' - ', '. ', ': ', '; ', ' | ', ' + ', ',', '  ']
 PRIVILEGED = ['bypass_author_approval', 'bypass_build_status',
               'bypass_commit_size', 'bypass_incompatible_branch',
